@@ -138,6 +138,152 @@ func (g *FG) ReachUnder(env Env) map[*GNode]bool {
 // with no other assignment, increment or address-taking): such an identifier folds to the value of its definition.
 // This keeps the tables exact when a sub-expression is hoisted into a local.
 func (g *FG) withLocals(env Env) Env {
+	g.buildLocalDefs()
+	depth := 0
+	var ext Env
+	ext = func(e ast.Expr) (constant.Value, bool) {
+		if v, ok := env(e); ok {
+			return v, true
+		}
+		if id, ok := e.(*ast.Ident); ok && depth < 6 {
+			if o := g.Info.Uses[id]; o != nil {
+				if def, has := g.localDefs[o]; has {
+					depth++
+					v, ok := evalConst(g.Info, def, ext)
+					depth--
+					return v, ok
+				}
+			}
+		}
+		return nil, false
+	}
+	return ext
+}
+
+// LocalDef returns the single plain definition of a local variable of this function (nil when it has none or several).
+func (g *FG) LocalDef(o types.Object) ast.Expr {
+	g.buildLocalDefs()
+	return g.localDefs[o]
+}
+
+// edgeImpliesDeep is edgeImplies that also looks through boolean locals with a single definition:
+// crossing "if flag" where flag := a && !b establishes a and ¬b.
+func (g *FG) edgeImpliesDeep(e *GEdge, atom func(c ast.Expr, pol int) bool) bool {
+	if e.Cond == nil || e.Tag != nil {
+		return false
+	}
+	var deep func(depth int) func(a ast.Expr, p int) bool
+	deep = func(depth int) func(a ast.Expr, p int) bool {
+		return func(a ast.Expr, p int) bool {
+			if atom(a, p) {
+				return true
+			}
+			id, ok := a.(*ast.Ident)
+			if !ok || depth >= 4 {
+				return false
+			}
+			o := g.Info.Uses[id]
+			if o == nil {
+				return false
+			}
+			if def := g.LocalDef(o); def != nil {
+				return condHolds(def, p, deep(depth+1))
+			}
+			if p > 0 {
+				// flag := <init>; flag = flag && X (each on every path to the edge): flag true ⇒ X
+				for _, x := range g.conjUpdates(o, e.From) {
+					if condHolds(x, p, deep(depth+1)) {
+						return true
+					}
+				}
+			}
+			return false
+		}
+	}
+	return condHolds(e.Cond, e.Pol, deep(0))
+}
+
+// conjUpdates: when every assignment to local o other than its first definition has the form o = o && X, returns the X of
+// those updates that lie on every path to node at (so that o true at `at` implies X); nil otherwise.
+func (g *FG) conjUpdates(o types.Object, at *GNode) []ast.Expr {
+	body := g.F.Body()
+	if o.Pos() < body.Pos() || o.Pos() > body.End() {
+		return nil
+	}
+	var xs []ast.Expr
+	var stmts []ast.Node
+	bad, first := false, true
+	ast.Inspect(body, func(n ast.Node) bool {
+		switch s := n.(type) {
+		case *ast.AssignStmt:
+			for i, l := range s.Lhs {
+				if objOf(g.Info, l) != o {
+					continue
+				}
+				if first {
+					first = false // the declaration / first definition: anything
+					continue
+				}
+				if s.Tok == token.ASSIGN && len(s.Lhs) == len(s.Rhs) {
+					var conj []ast.Expr
+					var flat func(e ast.Expr)
+					flat = func(e ast.Expr) {
+						if be, ok := unparen(e).(*ast.BinaryExpr); ok && be.Op == token.LAND {
+							flat(be.X)
+							flat(be.Y)
+							return
+						}
+						conj = append(conj, unparen(e))
+					}
+					flat(s.Rhs[i])
+					self := false
+					for _, cj := range conj {
+						if id, ok := cj.(*ast.Ident); ok && g.Info.Uses[id] == o {
+							self = true
+						}
+					}
+					if self && len(conj) > 1 {
+						for _, cj := range conj {
+							if id, ok := cj.(*ast.Ident); ok && g.Info.Uses[id] == o {
+								continue
+							}
+							xs, stmts = append(xs, cj), append(stmts, s)
+						}
+						continue
+					}
+				}
+				bad = true
+			}
+		case *ast.UnaryExpr:
+			if s.Op == token.AND && objOf(g.Info, s.X) == o {
+				bad = true
+			}
+		case *ast.ValueSpec:
+			for _, nm := range s.Names {
+				if g.Info.Defs[nm] == o {
+					first = false
+				}
+			}
+		}
+		return true
+	})
+	if bad || at == nil {
+		return nil
+	}
+	var out []ast.Expr
+	for i, st := range stmts {
+		nd := g.NodeOf(st)
+		if nd == nil {
+			continue
+		}
+		if ok, _ := g.DominatedByNodes(at, map[*GNode]bool{nd: true}); ok {
+			out = append(out, xs[i])
+		}
+	}
+	return out
+}
+
+func (g *FG) buildLocalDefs() {
 	if g.localDefs == nil {
 		g.localDefs = map[types.Object]ast.Expr{}
 		cnt := map[types.Object]int{}
@@ -204,25 +350,6 @@ func (g *FG) withLocals(env Env) Env {
 			}
 		}
 	}
-	depth := 0
-	var ext Env
-	ext = func(e ast.Expr) (constant.Value, bool) {
-		if v, ok := env(e); ok {
-			return v, true
-		}
-		if id, ok := e.(*ast.Ident); ok && depth < 6 {
-			if o := g.Info.Uses[id]; o != nil {
-				if def, has := g.localDefs[o]; has {
-					depth++
-					v, ok := evalConst(g.Info, def, ext)
-					depth--
-					return v, ok
-				}
-			}
-		}
-		return nil, false
-	}
-	return ext
 }
 
 // ReturnsUnder evaluates the (single) result of every return statement reachable under env.
